@@ -1021,11 +1021,31 @@ end Exec
 
 /-! ## 9. From a serialised document -/
 
+/-- `serde` reads `func_sig`, `type_args` and `instantiation` of a `Call` / `LoadFunction` as they
+    are written (dataflow.rs:186-196, 383-393).  hugr-py's `deserialize()` — which `Op.decOp`
+    mirrors — replaces the instantiation of a monomorphic function by the body of its type scheme;
+    that replacement is undone here. -/
+def asWritten (fuel : Nat) (j : Json) (op : Op) : Op :=
+  let fields : Option (Sig × List TypeArg) :=
+    match j with
+    | .obj kvs =>
+      match Codec.field "instantiation" kvs, Codec.field "type_args" kvs with
+      | some ji, some ja =>
+        match Op.decSigField fuel ji, Op.decArgsField fuel ja with
+        | .ok inst, .ok args => some (inst, args)
+        | _, _ => none
+      | _, _ => none
+    | _ => none
+  match op, fields with
+  | .call p _ _, some (inst, args) => .call p inst args
+  | .loadFunc p _ _, some (inst, args) => .loadFunc p inst args
+  | op, _ => op
+
 /-- Decode the operations of a `SerialHugr` (as `serde` does before the loader runs). -/
 def ofSerial (fuel : Nat) (sd : Serial.Doc) : Except String VDoc := do
   let ns ← sd.nodes.mapM (fun j =>
     match Op.decOp fuel j with
-    | .ok (op, p) => if p < 0 then .error "ValidationError" else .ok (⟨op, p.toNat⟩ : VNode)
+    | .ok (op, p) => if p < 0 then .error "ValidationError" else .ok (⟨asWritten fuel j op, p.toNat⟩ : VNode)
     | .error _ => .error "ValidationError")
   pure ⟨ns, sd.edges⟩
 
